@@ -27,7 +27,12 @@ func main() {
 	noEvidence := flag.Bool("no-evidence", false, "do not write evidence (used for self-validation runs on variants)")
 	list := flag.Bool("list", false, "print the registered property checks as JSON")
 	variants := flag.Bool("variants", false, "development aid: treat the remaining arguments as patch files, apply each to a copy of -repo and run every property on it")
+	anchorDeps := flag.Bool("anchor-deps", false, "development aid: print the property → anchor dependency table (Go source) computed on -repo")
 	flag.Parse()
+	if *anchorDeps {
+		fmt.Print(props.AnchorDeps(load.Config{Dir: *repo}))
+		return
+	}
 	if *variants {
 		props.Variants(*repo, flag.Args(), *verbose)
 		return
